@@ -134,6 +134,31 @@ def run(ctx, report: Report) -> None:
                 r1.violation(f'{c}.{meth} writes {txt}', mod.where(node),
                              f'{c}.{meth} writes `{txt}` on an object that is shared by every thread ({w}): another '
                              f'thread can observe or overwrite it between this write and its use')
+    # ---- process-wide interpreter state set from functions ---------------------------------------------------
+    PROCESS_SETTERS = {'sys.setrecursionlimit', 'sys.setswitchinterval', 'sys.settrace', 'sys.setprofile', 'os.chdir', 'os.umask', 'os.putenv',
+                       'os.environ.setdefault', 'os.environ.update', 'os.environ.pop', 'locale.setlocale', 'warnings.simplefilter',
+                       'warnings.filterwarnings', 'warnings.resetwarnings', 'gc.disable', 'gc.enable', 'gc.set_threshold', 'signal.signal',
+                       'random.seed', 'decimal.setcontext', 'socket.setdefaulttimeout', 'threading.stack_size', 'sys.set_int_max_str_digits'}
+    for mn, mod in src.mods.items():
+        for q, fn in mod.functions.items():
+            for n in walk_no_nested(fn):
+                cn_ = call_name(n) if isinstance(n, ast.Call) else ''
+                head = cn_.split('.')[0]
+                al = mod.aliases.get(head)
+                full = cn_
+                if al is not None and al[0] == 'module' and not al[2]:
+                    full = al[1] + cn_[len(head):]
+                elif al is not None and al[0] == 'symbol' and not al[3]:
+                    full = f'{al[1]}.{al[2]}' + cn_[len(head):]
+                store_env = isinstance(n, (ast.Assign, ast.Delete)) and any(
+                    isinstance(t, ast.Subscript) and unparse(t.value) in ('os.environ', 'sys.modules', 'sys.path') for t in n.targets)
+                if full in PROCESS_SETTERS or store_env:
+                    r1.instance({'function': f'{mn}.{q}', 'process_wide_setter': full or unparse(n)[:40]}, key=f'{mn}.{q}|setter|{full}')
+                    r1.obligation(False)
+                    r1.violation(f'{mn}.{q} sets process-wide state with {full or unparse(n)[:40]}', mod.where(n),
+                                 f'{mn}.{q}: `{unparse(n)[:70]}` changes state of the whole process (every thread sees it, and a second thread '
+                                 f'that saves / restores the same setting interleaves with this one): concurrent calls can fail or leave the '
+                                 f'setting changed')
     # ---- module / class level objects written from functions ------------------------------------------------
     for mn, mod in src.mods.items():
         modlevel = set()
